@@ -311,6 +311,63 @@ def brokerVerdicts (pre : Server) (ws : List String) (core flags : String) : Lis
     | _ => []
   c23 ++ afterDisc ++ c24 ++ aliasBound ++ perOp
 
+/-- C12: per (receiver session, publisher, topic, delivered QoS) the FIRST transmissions must arrive in
+    publish order. Works on the real broker's output only: payloads are unique per publish op, the
+    true order of a resumed session's resends comes from the harness's `order(c<n>:…)` flag. -/
+def c12Update (st : BkState) (pre post : Server) (ws : List String) (io : ImplOut) (flags : String) : BkState × List String :=
+  -- 1. register the publish of this op
+  let reg : Option (String × Str × Str) := match ws with
+    | "bk.send" :: n :: "PUBLISH" :: kv =>
+      match n.toNat?.bind (objOfConn pre), kvGet kv "t", kvGet kv "p" with
+      | some c, some t, some p => if p == "-" then none else (parseHex t).map fun tb => (p, c.id, tb)
+      | _, _, _ => none
+    | ["bk.ipub", t, p, _, _] => if p == "-" then none else (parseHex t).map fun tb => (p, inlineID, tb)
+    | _ => none
+  let st := match reg with
+    | some (p, o, t) =>
+      if st.pubs.any (·.1 == p) then st else { st with pubs := st.pubs ++ [(p, o, t, st.pubSeq)], pubSeq := st.pubSeq + 1 }
+    | none => st
+  -- 2. the deliveries of this op, per connection, in their true order: (payload, qos, retain flag)
+  let orderFlag : Option (Nat × List (String × String × String)) :=
+    match (flags.splitOn "order(c").drop 1 with
+    | tok :: _ =>
+      match ((tok.splitOn ")").headD "").splitOn ":" with
+      | [c, body] => c.toNat?.map fun n => (n, (body.splitOn ".").filterMap fun e =>
+          match e.splitOn "q" with
+          | [pl, rest] => some (pl, (rest.take 1).toString, ((rest.drop 4).take 1).toString)   -- "<q>d<d>r<r>"
+          | _ => none)
+      | _ => none
+    | [] => none
+  let isConn := ws.head? == some "bk.conn"
+  let perConn : List (Nat × List (String × String × String)) := io.conns.map fun (n, pks) =>
+    match orderFlag with
+    | some (m, ord) => if m == n then (n, ord) else (n, pks.filterMap fun p =>
+        if p.startsWith "PUB:" then some ((fieldOf p "p=").getD "?", ((fieldOf p "q").getD "?"), ((fieldOf p "r").getD "?")) else none)
+    | none => (n, pks.filterMap fun p =>
+        if p.startsWith "PUB:" then some ((fieldOf p "p=").getD "?", ((fieldOf p "q").getD "?"), ((fieldOf p "r").getD "?")) else none)
+  perConn.foldl (fun (acc : BkState × List String) (nd : Nat × List (String × String × String)) =>
+    match objOfConn post nd.1 with
+    | none => acc
+    | some rc =>
+      nd.2.foldl (fun (acc : BkState × List String) (d : String × String × String) =>
+        let (st, vs) := acc
+        let (pl, q, r) := d
+        if r != "0" then acc else      -- retained replays are not live deliveries
+        match st.pubs.find? (·.1 == pl) with
+        | none => acc
+        | some (_, origin, topic, seq) =>
+          if (matchingEntries pre topic).any (fun (c, _, g) => c == rc.id && g.isSome) then acc else
+          if st.firstSeen.contains (rc.id, pl) then acc else
+          let key := (rc.id, origin, topic, q)
+          let st := { st with firstSeen := st.firstSeen ++ [(rc.id, pl)] }
+          match st.lastFirst.find? (·.1 == key) with
+          | some (_, s0, p0) =>
+            if s0 > seq then
+              (st, vs ++ [fail "C12" (if isConn || rc.maxSend > 0 then "F12" else "-")
+                s!"c{nd.1} received the first transmission of {pl} (publish #{seq}) after that of {p0} (publish #{s0}) from the same publisher on the same topic at QoS {q}"])
+            else ({ st with lastFirst := (st.lastFirst.filter (·.1 != key)) ++ [(key, seq, pl)] }, vs)
+          | none => ({ st with lastFirst := st.lastFirst ++ [(key, seq, pl)] }, vs)) acc) (st, [])
+
 def renderVerdicts (vs : List String) : String :=
   if vs.isEmpty then "ok" else "; ".intercalate vs
 
@@ -324,7 +381,9 @@ def brokerOpV (st : BkState) (impl : String) (ws : List String) : Option (BkStat
     | [a, _] => a
     | _ => core
   match brokerOp st impl ws with
-  | some (st', m, _, g) => some (st', m, renderVerdicts (brokerVerdicts st.srv ws core flags), g)
+  | some (st', m, _, g) =>
+    let (st'', c12) := c12Update st' st.srv st'.srv ws (parseImplOut core) flags
+    some (st'', m, renderVerdicts (brokerVerdicts st.srv ws core flags ++ c12), g)
   | none => none
 
 end Mochi.Driver
